@@ -773,3 +773,6 @@ def workload(ctx):
     ctx.floor("directed_histories", 350)
     ctx.floor("directed_float_histories", 60)
     ctx.floor("failed_renders_in_history", 30)
+
+
+RULE = RULE + '  Later additions: towers of 12 families as directed histories; constructor options (prefix, order) combined with copies; one object at two places across the expressions of one mapper.'
